@@ -1,5 +1,6 @@
 import Pcore.Proofs.SliceHeapRefine
 import Pcore.Proofs.Caches
+import Pcore.Proofs.SliceHeapAlias
 import Pcore.Generated.SliceIdioms
 import Pcore.Generated.CacheFacts
 /-!
@@ -35,6 +36,8 @@ Full statement / proved / missing
                       any such row.
 * `C08_sealed`      — the sealing invariant as a theorem of its own: extending a history leaves every existing backing
                       array untouched, cell by cell (`heap' = heap ++ new arrays`).
+* `C08_pointer_stable` — pointer = copy: what a reference to pool value `n` denotes (what `a.Add(b)` stores for `b`) is the
+                      same at every later time; this is the theorem behind modelling a nested container by its content.
 * `C08_stable`      — corollary: what value `i` holds at any two later times is the same.
 * `C08_impl`        — `C08_refine` instantiated on the regenerated table.
 * `C08_appendToReceiver_breaks`, `C08_resliceThenAppend_breaks`, `C08_inPlace_breaks` — the constructive converses:
@@ -95,6 +98,33 @@ theorem C08_sealed (P : Policy) (tbl : Table) (ht : IdiomsSafe tbl) (ops more : 
   unfold runHeap
   rw [List.foldl_append]
   exact foldl_sealed P tbl ht more _
+
+/-- POINTER = COPY.  Where Go stores a pointer to a container `b` inside another value (`a.Add(b)`, a hash value, a key),
+    the model stores a copy of what `b` holds.  `b` is itself a pool value, so under a safe table the two cannot be told
+    apart: whatever a reference to pool value `n` denotes at some time `j` it denotes at every later time `j'` (its
+    cells are never written, and only mutable hashes — which are never nested — are ever retired).  Hence the content
+    of a value as the model has it, nested containers included, is what a walk through the real pointers yields. -/
+theorem C08_pointer_stable (P : Policy) (tbl : Table) (ht : IdiomsSafe tbl) (ops : List Op) :
+    ∀ n j j' v, n < j → j ≤ j' → j' ≤ ops.length →
+      elemVal (runHeap P tbl (ops.take j)).look (.ref n) = some v →
+      elemVal (runHeap P tbl (ops.take j')).look (.ref n) = some v := by
+  intro n j j' v hn hjj hj h
+  have e1 : (runHeap P tbl (ops.take j)).look = (runPure (ops.take j)).look := by
+    rw [← abs_look, run_refines P tbl ht]
+  have e2 : (runHeap P tbl (ops.take j')).look = (runPure (ops.take j')).look := by
+    rw [← abs_look, run_refines P tbl ht]
+  rw [e1] at h
+  rw [e2]
+  simp only [elemVal] at h ⊢
+  cases hl : (runPure (ops.take j)).look n with
+  | none => rw [hl] at h; cases h
+  | some p =>
+    obtain ⟨k, xs⟩ := p
+    rw [hl] at h
+    cases k
+    · rw [look_stable ops n j j' hn hjj hj .arr xs (by decide) hl]; exact h
+    · rw [look_stable ops n j j' hn hjj hj .hsh xs (by decide) hl]; exact h
+    · cases h
 
 /-- instantiated on the code as it is now -/
 theorem C08_impl (P : Policy) (ops : List Op) :
